@@ -292,6 +292,16 @@ def run_property(prop: str, tier: str = "quick", replay: Optional[str] = None, t
             violations.append((r, concrete))
         else:
             undecided.append(r)
+    if suite is not None and getattr(suite, "timeouts", None):
+        if native_info is not None:
+            native_info["timeouts"] = suite.timeouts[:3]
+        if getattr(mod, "NATIVE_TIMEOUT_IS_VIOLATION", False):
+            # a property about cost: the real code not finishing a query within the per-call limit on an input of the
+            # bounded enumeration (all of which finish in milliseconds on the pinned tree) is a violation
+            t0_ = suite.timeouts[0]
+            native_failures.append({"function": t0_["function"], "input": t0_["input"], "clause": "time-limit",
+                                    "detail": "the real function did not return within %d s" % t0_["limit_s"],
+                                    "observed": "timeout"})
     for nf in native_failures:
         name = "%s/native#%s" % (nf["function"].replace("pydsdl.", ""), nf["clause"])
         f = match_finding(name)
